@@ -102,6 +102,9 @@ pub fn run(ctx: &Ctx) -> Report {
         check(&mut a, n, &t, &format!("doubling depth {d}"), &mut acc);
     }
     rep.absorb(acc);
+    // inputs for the python arm (the wheel's sha256_treehash)
+    let g = crate::props::pygen::gen_trees(ctx, "C22");
+    rep.note("python_cases_file", g.notes.get("cases_file").cloned().unwrap_or_default());
     rep.evaluations = rep.acc.get("cases");
     rep.nontrivial = rep.evaluations;
     rep.states = rep.evaluations;
